@@ -38,6 +38,14 @@ package termincommittee
 //@ pred GhostInv(tic *TermInCommittee) = (forall gv int :: sentCommit[gv] ==> ppStored[gv] && sentCommitHash[gv] == ppHash[gv])
 //@   | && (forall gv int :: sentPrepare[gv] ==> ppStored[gv] && sentPrepareHash[gv] == ppHash[gv])
 //@   | && (tic.committedBlock == nil ==> ncommitted == 0)
+//@   | && (forall gv int :: proposed[gv] && gv > 0 ==> tic.latestViewThatProcessedVCMOrNVM >= gv)
+//@   | && (ncommitted == 0 ==> (forall gv int :: ppStored[gv] ==> gv <= tic.State.view))
+//@   | && (ncommitted == 0 ==> tic.latestViewThatProcessedVCMOrNVM <= tic.State.view)
+//@   | && (ncommitted == 0 && tic.preparedLocally != nil && tic.preparedLocally.isPreparedLocally ==> tic.preparedLocally.latestView <= tic.State.view)
+
+// the lock (prepared certificate) is never dropped or moved back within a term (C09)
+//@ pred LockKept(tic *TermInCommittee, before *preparedLocallyProps, wasPrepared bool, oldView primitives.View) = before != nil && wasPrepared ==>
+//@   | tic.preparedLocally != nil && tic.preparedLocally.isPreparedLocally && tic.preparedLocally.latestView >= oldView
 
 // what every PREPARE in the log satisfies (C08); established at the store site, returned by the getters
 //@ pred PrepareOK(tic *TermInCommittee, pm *interfaces.PrepareMessage) = pm != nil && pm.content != nil
@@ -120,7 +128,17 @@ package termincommittee
 //@     | ==> sentCommitHash[dyn(message, *interfaces.CommitMessage).content.SignedHeader().View()] == content(dyn(message, *interfaces.CommitMessage).content.SignedHeader().BlockHash())
 //@   requires [O10.4.commit-for-accepted-proposal] istype(message, *interfaces.CommitMessage) ==> ppStored[dyn(message, *interfaces.CommitMessage).content.SignedHeader().View()]
 //@     | && ppHash[dyn(message, *interfaces.CommitMessage).content.SignedHeader().View()] == content(dyn(message, *interfaces.CommitMessage).content.SignedHeader().BlockHash())
-//@   modifies ghost:sentPrepare, ghost:sentPrepareHash, ghost:sentCommit, ghost:sentCommitHash
+//@   requires [O10.2.one-proposal-per-view] istype(message, *interfaces.PreprepareMessage) ==> !proposed[dyn(message, *interfaces.PreprepareMessage).content.SignedHeader().View()]
+//@     | && dyn(message, *interfaces.PreprepareMessage).content.SignedHeader().View() == tic.State.view
+//@     | && tic.myMemberId == LeaderOf(tic.committeeMembers, dyn(message, *interfaces.PreprepareMessage).content.SignedHeader().View())
+//@   requires [O10.2.one-new-view-per-view] istype(message, *interfaces.NewViewMessage) ==> !proposed[dyn(message, *interfaces.NewViewMessage).content.SignedHeader().View()]
+//@     | && dyn(message, *interfaces.NewViewMessage).content.SignedHeader().View() == tic.State.view
+//@     | && tic.myMemberId == LeaderOf(tic.committeeMembers, dyn(message, *interfaces.NewViewMessage).content.SignedHeader().View())
+//@   modifies ghost:sentPrepare, ghost:sentPrepareHash, ghost:sentCommit, ghost:sentCommitHash, ghost:proposed
+//@   ensures istype(message, *interfaces.PreprepareMessage) ==> proposed[dyn(message, *interfaces.PreprepareMessage).content.SignedHeader().View()]
+//@   ensures istype(message, *interfaces.NewViewMessage) ==> proposed[dyn(message, *interfaces.NewViewMessage).content.SignedHeader().View()]
+//@   ensures forall v int :: !(istype(message, *interfaces.PreprepareMessage) && v == dyn(message, *interfaces.PreprepareMessage).content.SignedHeader().View())
+//@     | && !(istype(message, *interfaces.NewViewMessage) && v == dyn(message, *interfaces.NewViewMessage).content.SignedHeader().View()) ==> proposed[v] == old(proposed[v])
 //@   ensures istype(message, *interfaces.PrepareMessage) ==> sentPrepare[dyn(message, *interfaces.PrepareMessage).content.SignedHeader().View()]
 //@     | && sentPrepareHash[dyn(message, *interfaces.PrepareMessage).content.SignedHeader().View()] == content(dyn(message, *interfaces.PrepareMessage).content.SignedHeader().BlockHash())
 //@   ensures istype(message, *interfaces.CommitMessage) ==> sentCommit[dyn(message, *interfaces.CommitMessage).content.SignedHeader().View()]
@@ -144,6 +162,8 @@ package termincommittee
 //@   ensures ncommitted == old(ncommitted) + 1
 
 //@ func (*TermInCommittee).HandlePrepare
+//@   requires [term-not-yet-committed] ncommitted == 0
+//@   ensures [O9.lock-kept] LockKept(tic, old(tic.preparedLocally), old(tic.preparedLocally.isPreparedLocally), old(tic.preparedLocally.latestView))
 //@   inv GhostInv(tic)
 //@   props C08 C10 C03
 //@   requires TicOK(tic)
@@ -151,6 +171,8 @@ package termincommittee
 //@   modifies @TIC
 
 //@ func (*TermInCommittee).HandleCommit
+//@   requires [term-not-yet-committed] ncommitted == 0
+//@   ensures [O9.lock-kept] LockKept(tic, old(tic.preparedLocally), old(tic.preparedLocally.isPreparedLocally), old(tic.preparedLocally.latestView))
 //@   inv GhostInv(tic)
 //@   props C08 C10 C03
 //@   requires TicOK(tic)
@@ -158,6 +180,9 @@ package termincommittee
 //@   modifies @TIC
 
 //@ func (*TermInCommittee).checkPreparedLocally
+//@   requires [term-not-yet-committed] ncommitted == 0
+//@   requires [counted-only-from-current-view-on] view >= tic.State.view
+//@   ensures [O9.lock-kept] LockKept(tic, old(tic.preparedLocally), old(tic.preparedLocally.isPreparedLocally), old(tic.preparedLocally.latestView))
 //@   inv GhostInv(tic)
 //@   props C10 C03
 //@   requires TicOK(tic)
@@ -167,6 +192,8 @@ package termincommittee
 //@     | && (forall i :: 0 <= i && i < len(quorumIds) - 1 ==> quorumIds[i] == PIds(tic.storage, pver, blockHeight, view, blockHash)[i])
 
 //@ func (*TermInCommittee).checkCommitted
+//@   requires [term-not-yet-committed] ncommitted == 0
+//@   ensures [O9.lock-kept] LockKept(tic, old(tic.preparedLocally), old(tic.preparedLocally.isPreparedLocally), old(tic.preparedLocally.latestView))
 //@   inv GhostInv(tic)
 //@   props C03 C04 C10 C13
 //@   requires TicOK(tic)
@@ -176,12 +203,14 @@ package termincommittee
 //@     | && len(commitSenders) == len(CIds(tic.storage, cver, blockHeight, view, blockHash))
 
 //@ func (*TermInCommittee).sendCommitIfNotAlreadySent
+//@   requires [term-not-yet-committed] ncommitted == 0
 //@   props C10 C03
 //@   requires TicOK(tic)
 //@   inv GhostInv(tic)
 //@   requires [O10.4.commit-quorum-for-accepted-proposal] ppStored[view] && ppHash[view] == content(blockHash)
 //@   requires blockHeight == tic.State.height
-//@   modifies ghost:sentPrepare, ghost:sentPrepareHash, ghost:sentCommit, ghost:sentCommitHash
+//@   modifies ghost:sentPrepare, ghost:sentPrepareHash, ghost:sentCommit, ghost:sentCommitHash, ghost:proposed
+//@   ensures (forall pv int :: proposed[pv] == old(proposed[pv])) && tic.preparedLocally == old(tic.preparedLocally) && tic.latestViewThatProcessedVCMOrNVM == old(tic.latestViewThatProcessedVCMOrNVM) && tic.State.view == old(tic.State.view)
 //@   ensures tic.committedBlock == old(tic.committedBlock) && ncommitted == old(ncommitted) && tic.State == old(tic.State) && tic.State.height == old(tic.State.height)
 //@   ensures forall ov int :: ppStored[ov] == old(ppStored[ov]) && ppHash[ov] == old(ppHash[ov])
 //@   loop range commits
@@ -213,6 +242,8 @@ package termincommittee
 //@   ensures [sound.from-leader] result == nil ==> ppm.content.Sender().MemberId() == LeaderOf(tic.committeeMembers, ppm.content.SignedHeader().View())
 
 //@ func (*TermInCommittee).processPreprepare
+//@   requires [term-not-yet-committed] ncommitted == 0
+//@   ensures [O9.lock-kept] LockKept(tic, old(tic.preparedLocally), old(tic.preparedLocally.isPreparedLocally), old(tic.preparedLocally.latestView))
 //@   props C04 C07 C08 C10
 //@   requires TicOK(tic)
 //@   inv GhostInv(tic)
@@ -222,6 +253,8 @@ package termincommittee
 //@   modifies @TIC
 
 //@ func (*TermInCommittee).HandlePrePrepare
+//@   requires [term-not-yet-committed] ncommitted == 0
+//@   ensures [O9.lock-kept] LockKept(tic, old(tic.preparedLocally), old(tic.preparedLocally.isPreparedLocally), old(tic.preparedLocally.latestView))
 //@   props C04 C07 C08 C10
 //@   requires TicOK(tic)
 //@   inv GhostInv(tic)
@@ -293,10 +326,12 @@ package termincommittee
 //@   requires TicOK(tic)
 //@   modifies state.State.view
 //@   ensures [ok] result1 == nil ==> tic.State.view == newView && newView >= old(tic.State.view) && result0 != nil && result0.view == newView && result0.height == tic.State.height
-//@   ensures [fail] result1 != nil ==> tic.State.view == old(tic.State.view)
+//@   ensures [fail] result1 != nil ==> tic.State.view == old(tic.State.view) && old(tic.State.view) > newView
 //@   ensures [frame] tic.State.height == old(tic.State.height) && tic.State == old(tic.State)
 
 //@ func (*TermInCommittee).HandleNewView
+//@   requires [term-not-yet-committed] ncommitted == 0
+//@   ensures [O9.lock-kept] LockKept(tic, old(tic.preparedLocally), old(tic.preparedLocally.isPreparedLocally), old(tic.preparedLocally.latestView))
 //@   props C04 C07 C08 C10
 //@   requires TicOK(tic)
 //@   inv GhostInv(tic)
@@ -352,6 +387,8 @@ package termincommittee
 //@   ensures forall i, j :: 0 <= i && i < j && j < len(result0) ==> result0[i].content.Sender().MemberId() != result0[j].content.Sender().MemberId()
 
 //@ func (*TermInCommittee).HandleViewChange
+//@   requires [term-not-yet-committed] ncommitted == 0
+//@   ensures [O9.lock-kept] LockKept(tic, old(tic.preparedLocally), old(tic.preparedLocally.isPreparedLocally), old(tic.preparedLocally.latestView))
 //@   props C08 C09 C07 C10
 //@   requires TicOK(tic)
 //@   inv GhostInv(tic)
@@ -360,6 +397,8 @@ package termincommittee
 
 // the election path of the leader-to-be
 //@ func (*TermInCommittee).checkElected
+//@   requires [term-not-yet-committed] ncommitted == 0
+//@   ensures [O9.lock-kept] LockKept(tic, old(tic.preparedLocally), old(tic.preparedLocally.isPreparedLocally), old(tic.preparedLocally.latestView))
 //@   props C07 C09 C10
 //@   requires TicOK(tic)
 //@   inv GhostInv(tic)
@@ -372,6 +411,8 @@ package termincommittee
 //@     invariant [ghost-frame] forall gv int :: ppStored[gv] == old(ppStored[gv]) && ppHash[gv] == old(ppHash[gv]) && sentPrepare[gv] == old(sentPrepare[gv]) && sentCommit[gv] == old(sentCommit[gv]) && sentPrepareHash[gv] == old(sentPrepareHash[gv]) && sentCommitHash[gv] == old(sentCommitHash[gv]) && proposed[gv] == old(proposed[gv])
 
 //@ func (*TermInCommittee).onElectedByViewChange
+//@   requires [term-not-yet-committed] ncommitted == 0
+//@   ensures [O9.lock-kept] LockKept(tic, old(tic.preparedLocally), old(tic.preparedLocally.isPreparedLocally), old(tic.preparedLocally.latestView))
 //@   props C07 C09 C10 C04
 //@   requires TicOK(tic)
 //@   inv GhostInv(tic)
